@@ -80,49 +80,58 @@ structure St where
 
 def St.push (s : St) (o : List Pg.GOp) : St := { s with ops := o.reverse ++ s.ops }
 
-/-- `findAndAddClosestValidLeafNodes(start, checkStart, backward)`; the Boolean it returns is not used
-by the caller -/
+/-- one activation of `findAndAddClosestValidLeafNodes`: it returns, or calls itself -/
+inductive Step where
+  | done (s : St)
+  | go (start : Nat) (checkStart : Bool) (s : St)
+
+/-- the body of `findAndAddClosestValidLeafNodes(start, checkStart, backward)` up to its recursive
+call (the Boolean it returns is not used by the caller) -/
+def step (A : A) (rs : List Rec) (start : Nat) (checkStart backward : Bool) (s : St) : Step :=
+  match get rs start with
+  | none => .done s
+  | some sr =>
+    match (if checkStart then some start else (if backward then sr.prev else sr.next)) with
+    | none =>
+      -- no sibling: go on from the parent, unless it is a body / html wrapper
+      match sr.parent with
+      | none => .done s
+      | some p =>
+        match get rs p with
+        | none => .done s
+        | some pr => if invalidWrapper pr.kind then .done s else .go p false s
+    | some n =>
+      match get rs n with
+      | none => .done s
+      | some nr =>
+        match nr.kind with
+        | .text data =>
+          if A.noWords n then .go n false s
+          else if backward || !Pg.textAdded data.toList then .done (s.push (Pg.textOps data.toList))
+          else .go n false (s.push (Pg.textOps data.toList))
+        | .elem tag =>
+          if tag == "a" then
+            if backward then .done s
+            else
+              match A.pageInfo n with
+              | some (num, url) => .go n false ({ s with fwd := s.fwd + 1 }.push [.add { num := num, url := url }])
+              | none => .done ({ s with fwd := s.fwd + 1 }.push [.addGroup])
+          else
+            -- check the children, nearest first; a node without children is passed over
+            match (if backward then nr.last else nr.first) with
+            | none => .go n false s
+            | some c => .go c true s
+        | .other =>
+          match (if backward then nr.last else nr.first) with
+          | none => .go n false s
+          | some c => .go c true s
+
 def walk (A : A) (rs : List Rec) : Nat → Nat → Bool → Bool → St → Option St
   | 0, _, _, _, _ => none
   | fuel + 1, start, checkStart, backward, s =>
-    match get rs start with
-    | none => some s
-    | some sr =>
-      let nodeId : Option Nat := if checkStart then some start else (if backward then sr.prev else sr.next)
-      match nodeId with
-      | none =>
-        -- no sibling: go on from the parent, unless it is a body / html wrapper
-        match sr.parent with
-        | none => some s
-        | some p =>
-          match get rs p with
-          | none => some s
-          | some pr => if invalidWrapper pr.kind then some s else walk A rs fuel p false backward s
-      | some n =>
-        match get rs n with
-        | none => some s
-        | some nr =>
-          let descend : St → Option St := fun s =>
-            -- check the children, nearest first; a node without children is passed over
-            match (if backward then nr.last else nr.first) with
-            | none => walk A rs fuel n false backward s
-            | some c => walk A rs fuel c true backward s
-          match nr.kind with
-          | .text data =>
-            if A.noWords n then walk A rs fuel n false backward s
-            else
-              let s' := s.push (Pg.textOps data.toList)
-              if backward || !Pg.textAdded data.toList then some s' else walk A rs fuel n false backward s'
-          | .elem tag =>
-            if tag == "a" then
-              if backward then some s
-              else
-                let s1 := { s with fwd := s.fwd + 1 }
-                match A.pageInfo n with
-                | some (num, url) => walk A rs fuel n false backward (s1.push [.add { num := num, url := url }])
-                | none => some (s1.push [.addGroup])
-            else descend s
-          | .other => descend s
+    match step A rs start checkStart backward s with
+    | .done s' => some s'
+    | .go st cs s' => walk A rs fuel st cs backward s'
 
 /-- the loop of `FindOutlink` over the anchors in document order, then `CleanUp` -/
 def loop (A : A) (rs : List Rec) : Nat → List Nat → St → Option St
